@@ -281,7 +281,7 @@ theorem spec_prefix_free (cfg : StreamCfg) (req : ReqInfo) (p x : Bytes) (hx : x
               (by simp) (by simp) x false
             simp only [hc, finishChunkedSpec] at hp
             simp only [hext2, finishChunkedSpec]
-            cases hpf : parseFields true f t with
+            cases hpf : parseFields false f t with
             | none => simp [hpf, specOf, Outcome.isOk] at hp
             | some f2 =>
               simp only [specOf]
